@@ -860,6 +860,12 @@ static void iauth_read(evutil_socket_t fd, short events, void *iauth_in_v)
         if (argc < ARRAY_LENGTH(argv))
             argv[argc] = NULL;
 
+        /* Ignore lines that do not even have a command. */
+        if (argc == 0) {
+            free(line);
+            continue;
+        }
+
         /* If we should know the id, but don't, bail. */
         if (id == -1 || argv[0][0] == 'C')
             req = NULL;
@@ -877,13 +883,15 @@ static void iauth_read(evutil_socket_t fd, short events, void *iauth_in_v)
             parse_disconnect(req);
             break;
         case 'N':
-            parse_hostname(req, argv[1]);
+            if (argc > 1)
+                parse_hostname(req, argv[1]);
             break;
         case 'd':
             parse_no_hostname(req);
             break;
         case 'P':
-            parse_password(req, argv[1]);
+            if (argc > 1)
+                parse_password(req, argv[1]);
             break;
         case 'U':
             parse_user_info(req, argc, argv);
@@ -892,7 +900,8 @@ static void iauth_read(evutil_socket_t fd, short events, void *iauth_in_v)
             parse_ident(req, argv[1]);
             break;
         case 'n':
-            parse_nick(req, argv[1]);
+            if (argc > 1)
+                parse_nick(req, argv[1]);
             break;
         case 'H':
             parse_hurry_up(req);
